@@ -25,7 +25,7 @@ LEVEL_TEXT = (
 )
 
 CLS = "DelayedQueue"
-NONRAISING = {"self._queue.append", "time.time", "len", "self._queue.popleft"}
+NONRAISING = {"self._queue.append", "time.time", "len", "bool", "self._queue.popleft"}  # (bool / len of a deque cannot raise)
 
 
 class QCfg(ThreadCfg):
@@ -475,7 +475,10 @@ def run(ctx) -> None:
     aliases = lock_aliases(P, CLS)
     canon = lambda t: aliases.get(t, t)  # noqa: E731
     ctx.extra["lock_aliases"] = aliases
-    entries = [m for m in ci.methods if m != "__init__"]
+    # a private helper is judged inside the public operations that call it (where it is inlined): `_has_head_or_closed()` handed to
+    # wait_for runs with the lock the caller holds
+    owners_ = P.public_owners(CLS)
+    entries = [m for m in ci.methods if m != "__init__" and owners_.get(m, [m]) == [m]]
     cfg = QCfg(P)
     res, npaths = guarded_by(P, CLS, ("_queue",), "self._lock", entries, cfg)
     ctx.count("paths", npaths)
